@@ -89,6 +89,9 @@ class JSONRPC2Connection:
         # line for the JSON request.
         while line != "\r\n":
             line = self.conn.readline()
+            # Content-Length does not have to be the first header field
+            if length is None:
+                length = self._read_header_content_length(line)
         body = self.conn.read(length)
         log.debug(
             "RECV %s", json.dumps(json.loads(body), separators=(",", ":"), indent=2)
